@@ -39,7 +39,10 @@ class CollectionValue(GenericValue):
         if self._ast_node is None:
             elements = [None] * len(self._old_value)
         else:
-            assert isinstance(self._ast_node, ast.List)
+            if not isinstance(self._ast_node, ast.List):
+                # only list displays are supported: the elements of a tuple,
+                # a set or a variable can not be mapped to nodes
+                return
             if any(isinstance(e, ast.Starred) for e in self._ast_node.elts):
                 # star-expressions are not supported inside snapshots
                 return
